@@ -150,3 +150,11 @@ func verifMinMax(x, y Decimal) (mn, mx Decimal, a, b, c, d CmpResult) {
 	d = mx.Cmp(y)
 	return mn, mx, a, b, c, d
 }
+
+func verifInt32RoundTrip(x int32) (int32, bool) {
+	return FromInt32(x).Int32()
+}
+
+func verifUint32RoundTrip(x uint32) (uint32, bool) {
+	return FromUint32(x).Uint32()
+}
